@@ -860,6 +860,12 @@ impl TypeChecker {
     ) -> TypeResult<bool> {
         use ast::BinOp::*;
 
+        // The special cases below have to look at the type of the left
+        // operand. If they don't apply, we keep the result so that the left
+        // operand is not checked a second time (that would make checking a
+        // chain of `+` or `/` exponential in its length).
+        let mut checked_left = None;
+
         // There's a special case: constructing prefixes with `/`
         // We do a conservative check on the left hand side to see if it
         // could be an ip address. This (hopefully) does not conflict with the
@@ -892,6 +898,8 @@ impl TypeChecker {
                 self.type_info.function_calls.insert(span, function);
                 return Ok(diverges);
             }
+
+            checked_left = Some((var, diverges));
         };
 
         if let Add = op {
@@ -945,6 +953,8 @@ impl TypeChecker {
                     return Ok(diverges);
                 }
             }
+
+            checked_left = Some((var, diverges));
         }
 
         match op {
@@ -986,11 +996,16 @@ impl TypeChecker {
                 Ok(diverges)
             }
             Add | Sub | Mul | Div => {
-                let operand_ty = self.fresh_var();
+                let (operand_ty, mut diverges) = match checked_left {
+                    Some(checked) => checked,
+                    None => {
+                        let operand_ty = self.fresh_var();
+                        let new_ctx = ctx.with_type(operand_ty.clone());
+                        let diverges = self.expr(scope, &new_ctx, left)?;
+                        (operand_ty, diverges)
+                    }
+                };
                 let new_ctx = ctx.with_type(operand_ty.clone());
-
-                let mut diverges = false;
-                diverges |= self.expr(scope, &new_ctx, left)?;
 
                 if self.type_info.is_numeric_type(&operand_ty) {
                     diverges |= self.expr(scope, &new_ctx, right)?;
